@@ -60,7 +60,7 @@ def evaluate(fa, c, datum, checks, opts=None, tuples=True):
                 if kind == "rule-mismatch" or kind == "hint-not-honoured":
                     continue  # C09's business
                 V("c02.branch", kind, f"{kind} at {path}: {what}")
-            if not same(rv, expected):
+            if not same(rv, expected) and not same(_logical_view(c, rv), expected):
                 V("c02.value", "ref-decode-different-value", f"independent decoder recovers {short(rv)} from the bytes, normalised datum is {short(expected)}")
             else:
                 try:
@@ -104,6 +104,16 @@ def evaluate(fa, c, datum, checks, opts=None, tuples=True):
         except Exception as e:
             V("c01.back-to-back", f"back-to-back-raised:{exc_tag(e)}", f"{type(e).__name__}: {e}")
     return out
+
+
+def _logical_view(c, rv):
+    """The independently decoded (underlying) value seen through the schema's logical annotations."""
+    try:
+        from .ref import logical
+
+        return logical.from_underlying_deep(c.node, c.defs, rv)
+    except Exception:
+        return rv
 
 
 def prepare(fa, raw):
